@@ -1615,7 +1615,9 @@ func IsFileModified(filepath string) (bool, error) {
 		"status",
 		"--porcelain",
 		"--", // separator in case filename ambiguous
-		filepath,
+		// the path is relative to the root of the working tree, like
+		// the paths `git status --porcelain` prints, wherever we run
+		":(top)" + filepath,
 	}
 	cmd, err := git(args...)
 	if err != nil {
